@@ -182,7 +182,9 @@ Parse(s, hi) ==
                s1 == [s EXCEPT !.ppos = @ + 1]
                s2 == IF data THEN FeedPayload(s1, i, 1) ELSE s1
                \* an upgrade request with a body: the upgrade takes effect when the body is complete
-               answered == s.cur = i /\ s.hid = 0            \* its response is already finished (lingering read)
+               \* finish_response() of this request has already passed its decline check: the handler task
+               \* is done (lingering read) or parked in drain() behind the written response
+               answered == s.cur = i /\ (s.hid = 0 \/ s.hpc = "drain")
                s3 == IF last THEN EofPayload([s2 EXCEPT !.pmode = IF it.kind = "upgrade" THEN "upg" ELSE "line",
                                                         !.lateUp = @ \/ (it.kind = "upgrade" /\ answered),
                                                         !.pOpen = 0], i) ELSE s2
@@ -355,7 +357,9 @@ SExit ==     \* if not force_close: transport.close()
               IN IF ~s.fclose /\ ~s.tClosing THEN Sched([s EXCEPT !.tClosing = TRUE], "connlost") ELSE s)
 
 Post(s) ==   \* after the lingering read: close() if the body is still incomplete; keep-alive decision
-    LET s0 == IF LateUpgradeReset /\ s.lateUp THEN DeclineUpgrade(s) ELSE s
+    \* start() calls _decline_upgrade() after every request (it is a no-op unless the connection is in
+    \* upgraded state with nothing queued and nobody accepted the upgrade)
+    LET s0 == IF LateUpgradeReset THEN DeclineUpgrade(s) ELSE s
         s1 == IF PayloadOpen(s0, s0.cur) /\ ~s0.fclose THEN [s0 EXCEPT !.close = TRUE] ELSE s0
     IN IF s1.exc THEN [ForceClose([s1 EXCEPT !.exc = FALSE]) EXCEPT !.cpu = "s_exit"]
        ELSE IF s1.keepalive /\ ~s1.close /\ ~s1.fclose
